@@ -148,6 +148,14 @@ def run_algo_property(pid, prop_file, tier, seed, want, level="proof"):
                                   "%s differ between `%s` and `%s`" % (what, texts[ref[0]][:150], texts[k][:150]),
                                   dict(case_a=texts[ref[0]], case_b=texts[k], differs=what))
             rep.count("families:" + kind)
+        if pid == "C02":
+            # the periodic top tree's operator arguments (levels, virtual cells, child position codes of the real level-1 cells)
+            from checks import c10
+            pbin, perr = vlib.build_harness("h_algo_per", sources=["h_algo.cpp"], defines=["FAMILY_PER"])
+            if not pbin:
+                rep.violation(dict(kind="build", clause="h_algo_per", has_input=True), "harness h_algo (periodic) does not compile: " + perr[-400:], dict(stderr=perr))
+            else:
+                c10.per_family(rep, pbin, c10.gen_cases("quick", rng)[: (70 if tier == "quick" else 150)] if tier == "quick" else c10.gen_cases("thorough", rng)[:1500], sdir, tag="c02per")
         if "c12" in want:
             # the target/source executor: every single flag, staged histories, every upper level 0..height (+1)
             from checks import c09
